@@ -21,6 +21,12 @@
 #define NVE_solver_status_unfeasible 3
 #define NVE_solver_status_unbounded 4
 
+/* Eigen::ComputationInfo (Eigen/src/Core/util/Constants.h; only distinctness is used) */
+#define NVE_ComputationInfo_Success 0
+#define NVE_ComputationInfo_NumericalIssue 1
+#define NVE_ComputationInfo_NoConvergence 2
+#define NVE_ComputationInfo_InvalidInput 3
+
 /* ------------------------------------------------------------------ uninterpreted value algebra */
 uint64_t __CPROVER_uninterpreted_e_add(uint64_t, uint64_t);      /* a + b */
 uint64_t __CPROVER_uninterpreted_e_sub(uint64_t, uint64_t);      /* a - b */
@@ -39,6 +45,12 @@ int64_t  __CPROVER_uninterpreted_r_rows(uint64_t);               /* rows() / siz
 _Bool    __CPROVER_uninterpreted_r_all_finite(uint64_t);
 double   __CPROVER_uninterpreted_r_coeff(uint64_t, int64_t);     /* v(i) */
 _Bool    __CPROVER_uninterpreted_r_isapprox(uint64_t, uint64_t, double);
+uint64_t __CPROVER_uninterpreted_e_divs(uint64_t, double);       /* a / s */
+uint64_t __CPROVER_uninterpreted_e_ssub(double, uint64_t);       /* s - a (coefficient-wise) */
+uint64_t __CPROVER_uninterpreted_e_written(uint64_t, uint64_t);  /* a after a write of b through a (partial) view of a */
+uint64_t __CPROVER_uninterpreted_e_written_s(uint64_t, double);  /* a after a write of the scalar s through a view of a */
+int64_t  __CPROVER_uninterpreted_r_size(uint64_t);               /* size() of a matrix */
+double   __CPROVER_uninterpreted_r_dot(uint64_t, uint64_t);      /* a.dot(b) */
 #define NV_ADD(a, b) __CPROVER_uninterpreted_e_add(a, b)
 #define NV_SUB(a, b) __CPROVER_uninterpreted_e_sub(a, b)
 #define NV_MUL(a, b) __CPROVER_uninterpreted_e_mul(a, b)
@@ -50,6 +62,12 @@ _Bool    __CPROVER_uninterpreted_r_isapprox(uint64_t, uint64_t, double);
 #define NV_ROWS(a) __CPROVER_uninterpreted_r_rows(a)
 #define NV_RESIDUAL(a, b, c) __CPROVER_uninterpreted_r_residual(a, b, c)
 #define NV_ISAPPROX(a, b, e) __CPROVER_uninterpreted_r_isapprox(a, b, e)
+#define NV_DIVS(a, s) __CPROVER_uninterpreted_e_divs(a, s)
+#define NV_SIZE(a) __CPROVER_uninterpreted_r_size(a)
+#define NV_DOT(a, b) __CPROVER_uninterpreted_r_dot(a, b)
+/* the uninterpreted float operations themselves (the NV_F* macros of extracted code may add IEEE facts, the value is this one) */
+#define NV_UFMUL(a, b) __CPROVER_uninterpreted_fmul(a, b)
+#define NV_UFADD(a, b) __CPROVER_uninterpreted_fadd(a, b)
 
 struct nv_val { uint64_t ver; };   /* ghost: identity of the value of a matrix / vector / Eigen expression / decomposition */
 
@@ -71,6 +89,12 @@ static double  nv_e_maxcoeff(struct nv_val a) { return NV_MAXCOEFF(a.ver); }
 static int64_t nv_e_rows(struct nv_val a) { int64_t n = NV_ROWS(a.ver); __CPROVER_assume(n >= 0); return n; }
 static _Bool   nv_e_all_finite(struct nv_val a) { return __CPROVER_uninterpreted_r_all_finite(a.ver); }
 static _Bool   nv_e_isapprox(struct nv_val a, struct nv_val b, double eps) { return NV_ISAPPROX(a.ver, b.ver, eps); }
+static struct nv_val nv_e_divs(struct nv_val a, double s) { return nv_opaque(NV_DIVS(a.ver, s)); }
+static struct nv_val nv_e_ssub(double s, struct nv_val a) { return nv_opaque(__CPROVER_uninterpreted_e_ssub(s, a.ver)); }
+static struct nv_val nv_e_written(struct nv_val a, struct nv_val b) { return nv_opaque(__CPROVER_uninterpreted_e_written(a.ver, b.ver)); }
+static struct nv_val nv_e_written_s(struct nv_val a, double s) { return nv_opaque(__CPROVER_uninterpreted_e_written_s(a.ver, s)); }
+static int64_t nv_e_size(struct nv_val a) { int64_t n = NV_SIZE(a.ver); __CPROVER_assume(n >= 0); return n; }
+static double  nv_e_dot(struct nv_val a, struct nv_val b) { return NV_DOT(a.ver, b.ver); }
 
 /* "step lies between 0 and the tested step" (the segment [x, x + tested * d]; convexity of {G x < h} is the reason the
  * solver may shrink the step after the test) */
@@ -153,10 +177,18 @@ struct nv_pstate            /* nano::program::solver_state_t (include/nano/progr
 {
   int32_t m_iters; double m_fx; struct nv_val m_x, m_u, m_v; double m_eta; struct nv_val m_rdual, m_rcent, m_rprim;
   double m_kkt; int32_t m_status; double m_ldlt_rcond; _Bool m_ldlt_positive;
+  /* ghost, written only by the model of program_t::update: the (x, u, v) the residual fields (m_fx, m_eta, m_rdual, m_rprim,
+   * m_rcent) were computed from, and the value it stored in m_fx (= normalised objective at res_x, times program.m_mufx) */
+  uint64_t res_x, res_u, res_v; double fx_expect;
+  /* ghost provenance of that update call: was it a TRIAL point (bx + s * dx, bu + s * du, bv + s * dv) with ONE step s, from which
+   * base point (bx, bu, bv), in which outer iteration (m_iters at the call), and the how-manyth consecutive trial from that base in
+   * that iteration */
+  _Bool res_trial; uint64_t res_bx, res_bu, res_bv; int32_t res_iter; int64_t res_count;
 };
+struct nv_reducer { int32_t dummy; };          /* (anonymous namespace)::reducer_t: its constructor calls reduce(A, b) */
 struct nv_program           /* solver_t::program_t (src/program/solver.cpp) */
 {
-  struct nv_val m_Q, m_c, m_A, m_b, m_G, m_h; double m_mufx;
+  struct nv_val m_Q, m_c, m_A, m_b, m_G, m_h; struct nv_reducer m_reducer; double m_mufx;
   struct nv_program_buffers { struct nv_val ldlt, lmat, lvec, lsol; } buf;   /* the `mutable` members (one assigns target) */
 };
 #define m_ldlt buf.ldlt
@@ -189,15 +221,45 @@ static void nv_program_solve(struct nv_program* p)
   struct nv_program_buffers b; b.lmat = nv_fresh(); b.lvec = nv_fresh(); b.ldlt = nv_fresh(); b.lsol = nv_fresh(); p->buf = b;
   if (nv_n_solve < UINT64_MAX) nv_n_solve = nv_n_solve + 1;
 }
-/* program_t::update(x, u, v, miu, state) const: writes state.m_fx, m_eta, m_rdual, m_rprim, m_rcent (havoc) and nothing
- * else; in particular not m_x, m_u, m_v, m_status, m_iters */
-static struct nv_pstate nv_program_updated(struct nv_pstate s)
+/* the normalised objective at x as seen from the callers of program_t::update: SOME deterministic function of the identities
+ * of Q, c and x -- which is what NV_CONTRACT_program_update_* (proved on both instantiations of update) says, with the
+ * function spelled out there as NV_OBJN */
+double __CPROVER_uninterpreted_r_objn(uint64_t, uint64_t, uint64_t);
+#define NV_OBJN_ABS(prog, xver) __CPROVER_uninterpreted_r_objn((prog)->m_Q.ver, (prog)->m_c.ver, (xver))
+/* program_t::update(x, u, v, miu, state) const as seen from solve_with/without_inequality (contract: targets program_update_*):
+ * writes state.m_fx = objn(x) * m_mufx, and m_eta, m_rdual, m_rprim, m_rcent (havoc), nothing else; in particular not m_x,
+ * m_u, m_v, m_status, m_iters.  Ghost: where the residual fields were computed. */
+static struct nv_pstate nv_program_updated(const struct nv_program* p, struct nv_pstate s, struct nv_val x, struct nv_val u, struct nv_val v)
 {
-  s.m_fx = nv_nondet_double(); s.m_eta = nv_nondet_double();
+  s.m_fx = NV_UFMUL(NV_OBJN_ABS(p, x.ver), p->m_mufx); s.fx_expect = s.m_fx; s.m_eta = nv_nondet_double();
   s.m_rdual = nv_fresh(); s.m_rprim = nv_fresh(); s.m_rcent = nv_fresh();
+  s.res_x = x.ver; s.res_u = u.ver; s.res_v = v.ver;
+  s.res_trial = 0; s.res_bx = 0; s.res_bu = 0; s.res_bv = 0; s.res_iter = s.m_iters; s.res_count = 0;
   if (nv_n_update < UINT64_MAX) nv_n_update = nv_n_update + 1;
   return s;
 }
+/* program.update(X + sx * DX, U + su * DU, V + sv * DV, miu, state) (AST pattern recognised by spec.py:update_along_hook): the same
+ * values as the generic algebra gives the three sums, plus the provenance of the trial point */
+static struct nv_pstate nv_program_updated_along(const struct nv_program* p, struct nv_pstate s, struct nv_val X, double sx, struct nv_val DX,
+                                                 struct nv_val U, double su, struct nv_val DU, struct nv_val V, double sv, struct nv_val DV)
+{
+  _Bool  follows = s.res_trial && s.res_bx == X.ver && s.res_bu == U.ver && s.res_bv == V.ver && s.res_iter == s.m_iters;
+  int64_t before = s.res_count;
+  s = nv_program_updated(p, s, nv_e_add(X, nv_e_scale(sx, DX)), nv_e_add(U, nv_e_scale(su, DU)), nv_e_add(V, nv_e_scale(sv, DV)));
+  if (NV_SAME(sx, su) && NV_SAME(su, sv))
+  {
+    s.res_trial = 1; s.res_bx = X.ver; s.res_bu = U.ver; s.res_bv = V.ver;
+    s.res_count = (follows && before < 1000000) ? before + 1 : 1;
+  }
+  return s;
+}
+/* reducer_t(A, b) = reduce(A, b) (src/program/util.cpp): removes linearly dependent equality rows -- A and b become other
+ * values (havoc); ghost witnesses of the reduced pair */
+uint64_t nv_w_Ared, nv_w_bred;
+static struct nv_reducer nv_reduce(struct nv_val* A, struct nv_val* b)
+{ struct nv_reducer r; r.dummy = 0; *A = nv_fresh(); *b = nv_fresh(); nv_w_Ared = A->ver; nv_w_bred = b->ver; return r; }
+/* the scaling routine, by its contract (target normalize) */
+double normalize(struct nv_val* A, struct nv_val* b, double min_norm);
 /* solver_state_t::update(Q, c, A, b, G, h): computes m_kkt only (src/program/state.cpp:23-63) */
 static double nv_kkt_value(void) { return nv_nondet_double(); }
 /* ::make_smax(u, du) as seen from solve_with_inequality: no side effects, any double (its own contract is proved in target
@@ -300,6 +362,44 @@ __CPROVER_assigns(i, smax) \
 __CPROVER_loop_invariant(0 <= i && i <= size && smax <= nv_dbl_max_value && (NV_HYP_ALLPOS(u) ==> 0.0 <= smax)) \
 __CPROVER_decreases(size - i)
 
+/* ------------------------------------------------------------------ the scaling protocol
+ * property: "M = max(1e-3, ||Q||_F, ||c||_2)", "the reported objective agrees with the objective at x", "the same holds when the
+ * program is restated (positively rescaled rows / objective)": the solver works on data divided by max(1e-3, |A|, |b|); the
+ * factor it reports / multiplies back with IS the factor the data was divided by, and both members of a pair get the same one */
+#define NV_MAX2(a, b) (((a) < (b)) ? (b) : (a))
+#define NV_M(m, aver, bver) NV_MAX2(NV_MAX2((m), NV_NORM2(aver)), NV_NORM2(bver))
+#define NV_MIN_NORM 1e-3
+/* ::normalize(A, b, min_norm): both are divided by the returned factor, which is max(min_norm, |A|, |b|) >= min_norm */
+#define NV_CONTRACT_normalize \
+__CPROVER_requires(NV_FRESH(A) && NV_FRESH(b) && 0.0 < min_norm) \
+__CPROVER_assigns(*A, *b) \
+__CPROVER_ensures(__CPROVER_return_value == NV_M(min_norm, __CPROVER_old(A->ver), __CPROVER_old(b->ver)) && __CPROVER_return_value >= min_norm) \
+__CPROVER_ensures(A->ver == NV_DIVS(__CPROVER_old(A->ver), __CPROVER_return_value) && b->ver == NV_DIVS(__CPROVER_old(b->ver), __CPROVER_return_value))
+/* program_t(Q, c, A, b, G, h): m_mufx is the factor (Q, c) were divided by; (A, b) after the removal of dependent rows and
+ * (G, h) are each divided by their own common factor */
+#define NV_CONTRACT_program_ctor \
+__CPROVER_requires(NV_FRESH(self)) \
+__CPROVER_assigns(*self, nv_w_Ared, nv_w_bred) \
+__CPROVER_ensures(self->m_mufx == NV_M(NV_MIN_NORM, Q.ver, c.ver) && self->m_mufx >= NV_MIN_NORM) \
+__CPROVER_ensures(self->m_Q.ver == NV_DIVS(Q.ver, self->m_mufx) && self->m_c.ver == NV_DIVS(c.ver, self->m_mufx)) \
+__CPROVER_ensures(self->m_A.ver == NV_DIVS(nv_w_Ared, NV_M(NV_MIN_NORM, nv_w_Ared, nv_w_bred)) && self->m_b.ver == NV_DIVS(nv_w_bred, NV_M(NV_MIN_NORM, nv_w_Ared, nv_w_bred))) \
+__CPROVER_ensures(self->m_G.ver == NV_DIVS(G.ver, NV_M(NV_MIN_NORM, G.ver, h.ver)) && self->m_h.ver == NV_DIVS(h.ver, NV_M(NV_MIN_NORM, G.ver, h.ver)))
+/* program_t::update(x, u, v, miu, state): the reported objective is the normalised objective AT x (c.x, or x.Qx/2 + c.x when
+ * there is a Q) multiplied back by exactly m_mufx; only the residual fields are written */
+#define NV_OBJN(prog, xver) ((NV_SIZE((prog)->m_Q.ver) == 0) ? NV_DOT((xver), (prog)->m_c.ver) \
+  : NV_UFADD(NV_UFMUL(0.5, NV_DOT((xver), NV_MUL((prog)->m_Q.ver, (xver)))), NV_DOT((xver), (prog)->m_c.ver)))
+#define NV_UPDATE_ASSIGNS_ENSURES(xver) \
+__CPROVER_assigns(state->m_fx, state->m_eta, state->m_rdual, state->m_rprim, state->m_rcent) \
+__CPROVER_ensures(NV_SAME(state->m_fx, NV_UFMUL(NV_OBJN(self, (xver)), self->m_mufx)))
+/* tvector = vector_t: every call site passes the state's own members (solver.cpp:279, :346, :402) */
+#define NV_CONTRACT_program_update_vec \
+__CPROVER_requires(NV_FRESH(self) && NV_FRESH(state) && x == &state->m_x && u == &state->m_u && v == &state->m_v) \
+NV_UPDATE_ASSIGNS_ENSURES(__CPROVER_old(state->m_x.ver))
+/* tvector = the Eigen expression x + s * dx: temporaries (solver.cpp:331) */
+#define NV_CONTRACT_program_update_expr \
+__CPROVER_requires(NV_FRESH(self) && NV_FRESH(state) && NV_FRESH(x) && NV_FRESH(u) && NV_FRESH(v)) \
+NV_UPDATE_ASSIGNS_ENSURES(x->ver)
+
 /* solver_t::solve_without_inequality(program, logger): one KKT solve; converged <=> valid && aprox, failed <=> !valid,
  * else unfeasible; the returned (x, v) are the two segments of that solution */
 #define NV_SWO_VALID NV_FINITE(NV_RESIDUAL(NV_R.m_rdual.ver, NV_R.m_rcent.ver, NV_R.m_rprim.ver))
@@ -312,8 +412,16 @@ __CPROVER_ensures((NV_R.m_status == NVE_solver_status_failed) == (!NV_SWO_VALID)
 __CPROVER_ensures((NV_R.m_status == NVE_solver_status_unfeasible) == (NV_SWO_VALID && !NV_SWO_APROX)) \
 __CPROVER_ensures(NV_R.m_x.ver == NV_SEGMENT(program->m_lsol.ver, 0, NV_ROWS(program->m_c.ver))) \
 __CPROVER_ensures(NV_R.m_v.ver == NV_SEGMENT(program->m_lsol.ver, NV_ROWS(program->m_c.ver), NV_ROWS(program->m_A.ver))) \
-__CPROVER_ensures(NV_R.m_u.ver == NV_NANVEC(0) && NV_R.m_iters == 0 && nv_n_solve == __CPROVER_old(nv_n_solve) + 1)
+__CPROVER_ensures(NV_R.m_u.ver == NV_NANVEC(0) && NV_R.m_iters == 0 && nv_n_solve == __CPROVER_old(nv_n_solve) + 1) \
+/* the reported objective and residuals are those of the returned point */ \
+__CPROVER_ensures(NV_RES_AT_RETURNED(NV_R))
 
+/* the residual fields and the reported objective were computed at the (x, u, v) the state holds; fx is objn(x) * mufx */
+#define NV_RES_AT_RETURNED(st) ((st).res_x == (st).m_x.ver && (st).res_u == (st).m_u.ver && (st).res_v == (st).m_v.ver && NV_SAME((st).m_fx, (st).fx_expect))
+/* ... or, only when the line search of the FINAL iteration was exhausted (max_lsearch_iters consecutive trials), at the last trial
+ * point (x + s du, u + s du, v + s dv) of that very line search, started from the (x, u, v) the state holds */
+#define NV_RES_AT_LAST_TRIAL(st, nmax) ((st).res_trial && (st).res_bx == (st).m_x.ver && (st).res_bu == (st).m_u.ver && (st).res_bv == (st).m_v.ver \
+  && (st).res_iter == (st).m_iters && (st).res_count == (nmax) && NV_SAME((st).m_fx, (st).fx_expect))
 /* solver_t::solve_with_inequality(program, x0, logger) */
 #define NV_START_INFEASIBLE (NV_MAXCOEFF(NV_SUB(NV_MUL(program->m_G.ver, x0->ver), program->m_h.ver)) >= 0.0)
 /* (x, u, v) are the three members of the last group of in-place advances: one common step, lying between 0 and a step
@@ -355,6 +463,26 @@ __CPROVER_decreases(max_lsearch_iters - iter)
 __CPROVER_assigns(iter, s, state, nv_n_update) \
 __CPROVER_loop_invariant(0 <= iter && iter <= max_lsearch_iters) \
 NV_SWI_LOOP3_FRAME \
+__CPROVER_decreases(max_lsearch_iters - iter)
+
+/* third target over the same body: what done() certified (eta, rdual, rprim) and the reported fx were computed by program_t::update
+ * (a) at the RETURNED (x, u, v), or (b) -- only when the line search of the final iteration was exhausted -- at the last trial point
+ * of that same line search started from the returned (x, u, v) (the property tolerates 1e-6; that this trial point is close,
+ * s <= beta^max_lsearch_iters, is numeric and not decided).  Anything older or unrelated is refuted. */
+/* no trial point of the current outer iteration has been evaluated yet */
+#define NV_NO_TRIAL_YET(st) (!(st).res_trial || (st).res_iter < (st).m_iters)
+#define NV_CONTRACT_solve_with_inequality_res NV_SWI_REQUIRES_ASSIGNS \
+__CPROVER_ensures(NV_R.m_status == NVE_solver_status_converged ==> (NV_RES_AT_RETURNED(NV_R) || NV_RES_AT_LAST_TRIAL(NV_R, nv_p_max_lsearch_iters)))
+#define NV_LOOP_solve_with_inequality_res_1 \
+__CPROVER_assigns(state, dx, du, dv, program->buf, nv_strict, nv_grp, nv_n_solve, nv_n_update) \
+__CPROVER_loop_invariant(0 <= state.m_iters && state.m_iters <= max_iters && NV_RES_AT_RETURNED(state) && NV_NO_TRIAL_YET(state)) \
+__CPROVER_decreases(max_iters - state.m_iters)
+#define NV_LOOP_solve_with_inequality_res_2 NV_LOOP_solve_with_inequality_2
+#define NV_LOOP_solve_with_inequality_res_3 \
+__CPROVER_assigns(iter, s, state, nv_n_update) \
+__CPROVER_loop_invariant(0 <= iter && iter <= max_lsearch_iters) \
+NV_SWI_LOOP3_FRAME \
+__CPROVER_loop_invariant(iter == 0 ? (NV_RES_AT_RETURNED(state) && NV_NO_TRIAL_YET(state)) : NV_RES_AT_LAST_TRIAL(state, iter)) \
 __CPROVER_decreases(max_lsearch_iters - iter)
 
 /* the returned point is x0 or was reached by advances that each passed the strict-feasibility test */
